@@ -257,16 +257,10 @@ def run_case(unit, case, tier, work, extra_defines=(), witness=False, want_trace
     m = unit.meta
     os.makedirs(work, exist_ok=True)
     try:
-        if witness:
-            overlay = os.path.join(work, 'overlay')
-            os.makedirs(overlay, exist_ok=True)
-            report = []
-            # extraction is still needed in witness mode (C++ units); injections are not
-            for ex in m.get('extract', []):
-                from . import cxx2c
-                report += cxx2c.extract(REPO, overlay, ex)
-        else:
-            overlay, report = _stage_injected(unit, work)
+        # witness mode keeps the injected ghost statements (the co-simulation must run there
+        # too); the injected loop-contract clauses are simply not applied (no
+        # --apply-loop-contracts), so the loops are unwound instead
+        overlay, report = _stage_injected(unit, work)
         res.inject_report = report
         defines = ['-D' + GUARD, '-DVC_CBMC']
         for k, v in sorted(case.items()):
@@ -369,6 +363,8 @@ def run_case(unit, case, tier, work, extra_defines=(), witness=False, want_trace
         else:
             results, msgs, status = parse_cbmc_text(out)
         res.messages = msgs
+        if status == 'error':
+            raise Undecided('%s: cbmc reported an error: %s' % (res.label, ' | '.join(x[:200] for x in msgs[-2:])))
         if results is None:
             tail = ' | '.join(msgs[-4:]) if msgs else ''
             raise Undecided('%s: cbmc gave no result (rc=%s) %s %s' % (res.label, rc, tail, err[-500:]))
@@ -387,7 +383,8 @@ def run_case(unit, case, tier, work, extra_defines=(), witness=False, want_trace
             else:
                 res.obligations.append(ob)
         # verdict
-        res.failed = [o for o in res.obligations if o['status'] != 'SUCCESS']
+        res.failed = sorted([o for o in res.obligations if o['status'] != 'SUCCESS'],
+                            key=lambda o: o['status'] != 'FAILURE')
         if not witness:
             if not res.obligations:
                 raise Undecided('%s: zero obligations generated' % res.label)
@@ -405,7 +402,10 @@ def run_case(unit, case, tier, work, extra_defines=(), witness=False, want_trace
                 steps = {o['id'] for o in res.obligations if 'loop_invariant_step' in (o['id'] or '')
                          or 'Check invariant after step' in o['description']
                          or 'Check that loop invariant is preserved' in o['description']}
-                if len(steps) < (nloops if isinstance(nloops, int) else 1):
+                # cbmc emits the loop-contract obligations of a `for (init;;incr)` loop (empty
+                # condition) without source location and with the bare description "assertion"
+                anon = [o for o in res.obligations if o['description'] == 'assertion' and o['location'].endswith(':?')]
+                if len(steps) + len(anon) // 3 < (nloops if isinstance(nloops, int) else 1):
                     raise Undecided('%s: %d loop contracts injected but only %d inductive-step obligations '
                                     'were generated (contract silently dropped?)' % (res.label, nloops, len(steps)))
     except Undecided as e:
@@ -481,11 +481,9 @@ def native_replay(unit, case, witness_vals, work, extra_defines=()):
         for k, v in witness_vals.items():
             f.write('#define WITVAL_%s %s\n' % (k, v))
     m = unit.meta
-    overlay = os.path.join(work, 'overlay')
-    os.makedirs(overlay, exist_ok=True)
-    for ex in m.get('extract', []):
-        from . import cxx2c
-        cxx2c.extract(REPO, overlay, ex)
+    # the native build uses the same injected/extracted copy (ghost statements run natively,
+    # contract clauses are defined away by cprover_native.h)
+    overlay, _ = _stage_injected(unit, work)
     exe = os.path.join(work, 'replay')
     cmd = ['clang', '-g', '-O0', '-fsanitize=address,undefined', '-fno-sanitize-recover=undefined',
            '-fno-builtin', '-w',
